@@ -58,9 +58,35 @@ theorem information_form {A : Type*} [Ring A] (P Pinv H Ht R Rinv S Sinv : A)
   rw [e2, hSi, hR]
   noncomm_ring
 
+/-- the gain maps into the information form:  (P⁻¹ + Hᵀ R⁻¹ H) P Hᵀ S⁻¹ = Hᵀ R⁻¹ -/
+theorem information_times_gain {A : Type*} [Ring A] (P Pinv H Ht R Rinv S Sinv : A)
+    (hS : S = H * P * Ht + R) (hP : Pinv * P = 1) (hR : Rinv * R = 1) (hSi : S * Sinv = 1) :
+    (Pinv + Ht * Rinv * H) * (P * Ht * Sinv) = Ht * Rinv := by
+  have e1 : (Pinv + Ht * Rinv * H) * (P * Ht * Sinv)
+      = (Pinv * P) * Ht * Sinv + Ht * Rinv * (H * P * Ht) * Sinv := by noncomm_ring
+  have hHPHt : H * P * Ht = S - R := by rw [hS]; noncomm_ring
+  rw [e1, hP, hHPHt]
+  have e2 : 1 * Ht * Sinv + Ht * Rinv * (S - R) * Sinv
+      = Ht * Sinv + Ht * Rinv * (S * Sinv) - Ht * (Rinv * R) * Sinv := by noncomm_ring
+  rw [e2, hSi, hR]
+  noncomm_ring
+
+/-- One measurement update is the Gauss-Markov (weighted least squares, BLUE) estimate of the linear-Gaussian model: the mean
+    `x0 + K (z - H x0)` with `K = P Hᵀ S⁻¹` solves the normal equations
+    `(P⁻¹ + Hᵀ R⁻¹ H) x = P⁻¹ x0 + Hᵀ R⁻¹ z`. -/
+theorem gain_form_solves_normal_equations {A : Type*} [Ring A] (P Pinv H Ht R Rinv S Sinv x0 z : A)
+    (hS : S = H * P * Ht + R) (hP : Pinv * P = 1) (hR : Rinv * R = 1) (hSi : S * Sinv = 1) :
+    (Pinv + Ht * Rinv * H) * (x0 + P * Ht * Sinv * (z - H * x0)) = Pinv * x0 + Ht * Rinv * z := by
+  have hk := information_times_gain P Pinv H Ht R Rinv S Sinv hS hP hR hSi
+  have e1 : (Pinv + Ht * Rinv * H) * (x0 + P * Ht * Sinv * (z - H * x0))
+      = (Pinv + Ht * Rinv * H) * x0 + ((Pinv + Ht * Rinv * H) * (P * Ht * Sinv)) * (z - H * x0) := by noncomm_ring
+  rw [e1, hk]
+  noncomm_ring
+
 end Pvx
 
 #print axioms Pvx.joseph_eq_short
 #print axioms Pvx.gain_is_PHtSinv
 #print axioms Pvx.vanloan_composition
 #print axioms Pvx.information_form
+#print axioms Pvx.gain_form_solves_normal_equations
